@@ -139,6 +139,20 @@ def step (t : Table ν) (maxCycles stepCount : Nat) (exec : ν → Script → Ex
   | .error e => .error e
   | .ok (l, s') => .ok (l.map (fun x => (x.1.entry.name, x.2)), s')
 
+/-! ## the number of cycles of a step -/
+
+/-- `Canonical.__init__`: `max_cycles` as given, and `max(len(atoms), 1)` when it is left out -/
+def defaultCycles (given : Option Nat) (nAtoms : Nat) : Nat :=
+  match given with
+  | some c => c
+  | none => max nAtoms 1
+
+/-- the line before the repair "the default number of cycles is at least one": `len(atoms)` -/
+def defaultCyclesPinned (given : Option Nat) (nAtoms : Nat) : Nat :=
+  match given with
+  | some c => c
+  | none => nAtoms
+
 /-! ## `add_move` -/
 
 /-- `sum([self.moves[name].minimum_count for name in self.moves])` -/
